@@ -696,6 +696,188 @@ fn run_case(ctx: &mut Ctx, h: &Hdr, r: &Rec, case: &str, emit: bool) {
     }
 }
 
+// ------------------------------------------------------------------------------------ sessions
+//
+// Several records of ONE header in one BCF stream, read back with every reader entry point that
+// reuses a buffer between records (read_record_buf into one RecordBuf, read_record into one lazy
+// bcf::Record, the records() / record_bufs() iterators), and the lazy records written once more
+// through the BCF writer (BCF -> BCF pass-through of a `bcf::Record`, which the writer accepts like
+// any other `vcf::variant::Record`). The property is per record; a reader that leaves state of the
+// previous record in a reused buffer (no INFO after INFO, no samples after samples), or a lazy view
+// whose lengths disagree with its iterators, breaks it only in such a sequence.
+
+fn session_of(sub: u64) -> (Hdr, Vec<Rec>) {
+    let mut rng = Rng::new(sub ^ 0x5e55_1010);
+    let h = gen_header(&mut rng);
+    let k = 2 + rng.below(5) as usize;
+    let mut recs = vec![];
+    for _ in 0..k {
+        let mut r = gen_record(&mut rng, &h);
+        match rng.below(7) {
+            0 => r.info.clear(),
+            1 => {
+                r.keys.clear();
+                r.rows.clear();
+            }
+            2 => {
+                r.info.clear();
+                r.keys.clear();
+                r.rows.clear();
+                r.filters.clear();
+                r.ids.clear();
+            }
+            _ => {}
+        }
+        recs.push(r);
+    }
+    (h, recs)
+}
+
+fn run_session(ctx: &mut Ctx, sub: u64) {
+    let case = format!("session {sub}");
+    let (h, cands) = session_of(sub);
+    let Ok(header) = parse_header(&h) else { return };
+    if h.defs.iter().any(|d| d.idx.is_some()) {
+        // explicit IDX: the header round trip is run_case's subject; sessions use plain dictionaries
+        ctx.bump("session_skipped_idx");
+        return;
+    }
+    // keep the records that round-trip on their own (anything else is run_case's finding, not a
+    // session effect)
+    let mut recs: Vec<Rec> = vec![];
+    for r in cands {
+        if unrepresentable(&r) || defect_shapes(&h, &r).into_iter().any(|s| !shape_is_fixed(s)) {
+            ctx.bump("session_record_dropped");
+            continue;
+        }
+        let alone = guarded(|| -> Option<Rec> {
+            let w = write_bcf(&header, &to_record_buf(&r)).ok()?.ok()?;
+            let mut rd = bcf::io::Reader::from(&w.stream[..]);
+            let h2 = rd.read_header().ok()?;
+            let mut out = vcf::variant::RecordBuf::default();
+            (rd.read_record_buf(&h2, &mut out).ok()? > 0).then(|| from_record_buf(&out))
+        });
+        match alone {
+            Ok(Some(e)) if norm(&e, h.v44) == norm(&r, h.v44) => recs.push(r),
+            _ => ctx.bump("session_record_dropped"),
+        }
+    }
+    if recs.len() < 2 {
+        ctx.bump("session_too_short");
+        return;
+    }
+    ctx.eval(Some(fnv(case.as_bytes())));
+    ctx.bump(&format!("session_len[{}]", recs.len()));
+    if recs.windows(2).any(|w| !w[0].info.is_empty() && w[1].info.is_empty()) {
+        ctx.bump("session_no_info_after_info");
+    }
+    if recs.windows(2).any(|w| !w[0].keys.is_empty() && w[1].keys.is_empty()) {
+        ctx.bump("session_no_samples_after_samples");
+    }
+    let want: Vec<Rec> = recs.iter().map(|r| norm(r, h.v44)).collect();
+    let stream = match guarded(|| -> std::io::Result<Vec<u8>> {
+        let mut w = bcf::io::Writer::from(Vec::new());
+        w.write_header(&header)?;
+        for r in &recs {
+            w.write_variant_record(&header, &to_record_buf(r))?;
+        }
+        Ok(w.into_inner())
+    }) {
+        Ok(Ok(s)) => s,
+        other => {
+            ctx.fail("session-write", format!("records that are written alone are refused in sequence: {:?}", other.map(|r| r.map(|_| ()).map_err(|e| e.to_string()))), case);
+            return;
+        }
+    };
+    let v44 = h.v44;
+    let mut judge = |ctx: &mut Ctx, class: &str, how: &str, got: Result<Result<Vec<Rec>, String>, String>| {
+        match got {
+            Err(p) => ctx.fail(class, format!("{how}: panic {p}"), case.clone()),
+            Ok(Err(e)) => ctx.fail(class, format!("{how}: error {e} on a stream of {} records that read back one by one", want.len()), case.clone()),
+            Ok(Ok(got)) => {
+                let got: Vec<Rec> = got.iter().map(|r| norm(r, v44)).collect();
+                if got.len() != want.len() {
+                    ctx.fail(class, format!("{how}: {} records read, {} written", got.len(), want.len()), case.clone());
+                } else if let Some(i) = (0..want.len()).find(|&i| got[i] != want[i]) {
+                    ctx.fail(class, format!("{how}: record {i} of {} differs: wrote {} read {}", want.len(), fmt_rec(&want[i]), fmt_rec(&got[i])), case.clone());
+                } else {
+                    ctx.bump(&format!("session_ok[{class}]"));
+                }
+            }
+        }
+    };
+    // A: one reused RecordBuf
+    let a = guarded(|| -> Result<Vec<Rec>, String> {
+        let mut rd = bcf::io::Reader::from(&stream[..]);
+        let h2 = rd.read_header().map_err(es)?;
+        let mut out = vcf::variant::RecordBuf::default();
+        let mut v = vec![];
+        while rd.read_record_buf(&h2, &mut out).map_err(es)? > 0 {
+            v.push(from_record_buf(&out));
+        }
+        Ok(v)
+    });
+    judge(ctx, "session-reused-record-buf", "read_record_buf into one reused RecordBuf", a);
+    // B: the record_bufs() iterator
+    let b = guarded(|| -> Result<Vec<Rec>, String> {
+        let mut rd = bcf::io::Reader::from(&stream[..]);
+        let h2 = rd.read_header().map_err(es)?;
+        let mut v = vec![];
+        for r in rd.record_bufs(&h2) {
+            v.push(from_record_buf(&r.map_err(es)?));
+        }
+        Ok(v)
+    });
+    judge(ctx, "session-record-bufs-iter", "record_bufs()", b);
+    // C: one reused lazy record
+    let c = guarded(|| -> Result<Vec<Rec>, String> {
+        let mut rd = bcf::io::Reader::from(&stream[..]);
+        let h2 = rd.read_header().map_err(es)?;
+        let mut rec = bcf::Record::default();
+        let mut v = vec![];
+        while rd.read_record(&mut rec).map_err(es)? > 0 {
+            v.push(from_lazy(&rec, &h2)?);
+        }
+        Ok(v)
+    });
+    judge(ctx, "session-reused-lazy-record", "read_record into one reused bcf::Record", c);
+    // D: the records() iterator
+    let d = guarded(|| -> Result<Vec<Rec>, String> {
+        let mut rd = bcf::io::Reader::from(&stream[..]);
+        let h2 = rd.read_header().map_err(es)?;
+        let mut v = vec![];
+        for r in rd.records() {
+            v.push(from_lazy(&r.map_err(es)?, &h2)?);
+        }
+        Ok(v)
+    });
+    judge(ctx, "session-records-iter", "records()", d);
+    // E: BCF -> BCF pass-through of the lazy records, then an eager read with fresh buffers
+    let e = guarded(|| -> Result<Vec<Rec>, String> {
+        let mut rd = bcf::io::Reader::from(&stream[..]);
+        let h2 = rd.read_header().map_err(es)?;
+        let mut w = bcf::io::Writer::from(Vec::new());
+        w.write_header(&h2).map_err(es)?;
+        let mut rec = bcf::Record::default();
+        while rd.read_record(&mut rec).map_err(es)? > 0 {
+            w.write_variant_record(&h2, &rec).map_err(|e| format!("writer refuses the lazy record: {e}"))?;
+        }
+        let copy = w.into_inner();
+        let mut rd = bcf::io::Reader::from(&copy[..]);
+        let h3 = rd.read_header().map_err(es)?;
+        let mut v = vec![];
+        loop {
+            let mut out = vcf::variant::RecordBuf::default();
+            if rd.read_record_buf(&h3, &mut out).map_err(|e| format!("the copy does not read back: {e}"))? == 0 {
+                break;
+            }
+            v.push(from_record_buf(&out));
+        }
+        Ok(v)
+    });
+    judge(ctx, "session-lazy-rewrite", "lazy bcf::Record written again through the BCF writer and read back", e);
+}
+
 /// the original record's text, with the representation differences the text itself erases: none
 /// needed beyond identity, because rows are generated full-width.
 fn pad_text(t: &str, _r: &Rec) -> String {
@@ -1289,6 +1471,7 @@ pub fn run(ctx: &mut Ctx) {
                 }
             }
             Some("dec") => dec_corpus(ctx),
+            Some("session") => run_session(ctx, case.get(1).and_then(|s| s.parse().ok()).unwrap_or(0)),
             _ => { super::c10_record::replay(ctx, &case); }
         }
         return;
@@ -1306,6 +1489,9 @@ pub fn run(ctx: &mut Ctx) {
         run_case(ctx, &h, &r, &format!("case {sub}"), true);
     }
     super::c10_record::run(ctx);
+    for it in 0..ctx.n(600, 12_000) {
+        run_session(ctx, ctx.seed.wrapping_mul(7_000_003).wrapping_add(it));
+    }
     let (h, r) = case_of(ctx.seed.wrapping_mul(10_000_019));
     ctx.sample(|| format!("c10 rec {} {}", fmt_hdr_words(&h), fmt_rec(&r)));
 }
